@@ -3,11 +3,12 @@ import itertools
 import math
 import numpy as np
 
-from mc import core, fixtures as fx
+from mc import core, fixtures as fx, rthist
 from mc.ref import rt
 
 ID = 'C19'
-RULE = ('clouds: full product layers x pressure range x cloud-top letter (above max / on each level / on each '
+RULE = ('histories: one live model, every sequence (depth 2, thorough 3; depth 3/4 over a sub-alphabet) of cloud / haze / '
+        'temperature / pressure-range updates, evaluated after each and compared with a fresh model.  clouds: full product layers x pressure range x cloud-top letter (above max / on each level / on each '
         'layer pressure / between / below min) x companion absorber; hazes (FlatMie, LeeMie): full product layers x '
         'pressure range x top letter x bottom letter (unset, on a level, on a layer centre, inside a layer, outside '
         'above/below the range; all combinations incl. inverted and equal) x magnitude x particle letters.  Every '
@@ -188,6 +189,42 @@ def haze_fn(case):
     return r
 
 
+# ---------------------------------------------------------------------------------------------
+# history phase: cloud / haze parameters moved on one live model (a retrieval does exactly this)
+# ---------------------------------------------------------------------------------------------
+HIST_ALPHABET = [['clouds_pressure', 1e1], ['clouds_pressure', 1e3], ['clouds_pressure', 1e5], ['clouds_pressure', 1e8],
+                 ['flat_topP', 1e0], ['flat_topP', 1e3], ['flat_topP', -1], ['flat_bottomP', 1e2], ['flat_bottomP', 1e5],
+                 ['flat_bottomP', -1], ['flat_mix_ratio', 1e-33], ['flat_mix_ratio', 1e-29],
+                 ['lee_mie_topP', 1e0], ['lee_mie_topP', 1e3], ['lee_mie_bottomP', 1e2], ['lee_mie_bottomP', 1e5],
+                 ['lee_mie_mix_ratio', 1e-16], ['lee_mie_mix_ratio', 1e-9], ['lee_mie_radius', 0.3], ['lee_mie_q', 5.0],
+                 ['T', 700.0], ['atm_max_pressure', 1e5]]
+HIST_REDUCED = [['clouds_pressure', 1e1], ['clouds_pressure', 1e5], ['flat_topP', 1e0], ['flat_topP', -1],
+                ['flat_bottomP', 1e2], ['lee_mie_topP', 1e3], ['lee_mie_bottomP', 1e2], ['atm_max_pressure', 1e5]]
+
+
+def hist_build(case):
+    fx.reset_caches()
+    install()
+    spec = base_spec({'N': case['N'], 'prange': [1e6, 1e-1], 'path': 'old'},
+                     ['abs', ['clouds', 1e2], ['flat', {'flat_mix_ratio': 1e-31}],
+                      ['lee', {'lee_mie_mix_ratio': 1e-12, 'lee_mie_radius': 0.05, 'lee_mie_q': 40}]])
+    spec['T'] = ['iso', 1000.0]
+    return fx.build_model(spec)
+
+
+def _haze_sigma(r, live, fresh, sig):
+    for a, b in zip(live.contribution_list, fresh.contribution_list):
+        if a.sigma_xsec is not None and b.sigma_xsec is not None:
+            r.eq(np.asarray(a.sigma_xsec, float), np.asarray(b.sigma_xsec, float), 'history-contribution-opacity',
+                 'history-sigma/%s/%s' % (type(a).__name__, sig), rtol=1e-12, atol=0.0)
+
+
+def hist_fn(case):
+    r = core.R(case)
+    rthist.run_history(r, case['hist'], lambda: hist_build(case), 'clouds-hazes', extra_eval=_haze_sigma)
+    return r
+
+
 def explore(ctx):
     thorough = ctx.tier == 'thorough'
     ccases = []
@@ -209,4 +246,12 @@ def explore(ctx):
             hcases.append({'kind': 'lee', 'N': N, 'prange': pr, 'top': top, 'bottom': bot, 'mix': mix,
                            'radius': rad, 'q': q, 'with_abs': mix == 1e-10})
     ctx.run_cases('haze_fn', hcases, phase='hazes')
+    if thorough:
+        hs = rthist.histories(HIST_ALPHABET, 3, HIST_REDUCED, 4)
+    else:
+        hs = rthist.histories(HIST_ALPHABET, 2, HIST_REDUCED, 3)
+    hist_cases = [{'N': n, 'hist': h} for n in ((5, 3) if thorough else (5,)) for h in hs]
+    ctx.run_cases('hist_fn', hist_cases, phase='histories')
+    ctx.bounds.update(history_depth=3 if thorough else 2, history_depth_reduced=4 if thorough else 3,
+                      histories=len(hist_cases))
     ctx.bounds.update(layers=ns, bound_letters=len(BOUNDS), clouds_cases=len(ccases), haze_cases=len(hcases))
